@@ -11,7 +11,7 @@ from ..pm import AnalysisError, unparse
 from ..report import Check
 from ..sym import PathResolver, Resolver, Term, path_of, show, walk
 from . import c13
-from .common import const_value, is_path, iter_base, loc, loops_over, strip
+from .common import const_value, early_exits, is_path, iter_base, loc, loops_over, strip
 
 EXPLANATION = (
     "static analysis of Aggregated.grouped_terms, WeightedDefuzzifier.infer_type and the two weighted defuzzifiers: "
@@ -74,6 +74,10 @@ def grouping(check: Check) -> None:
         any(s[0] == "elem" for s in walk(b)) ^ any(s[0] == "elem" for s in walk(a)) or (a[0] == "attr" and b[0] == "attr" and a[1] != b[1])
     check.require(bool(old_new), "W-grp", "Aggregated.grouped_terms/combine", "the group's degree is combined with the repeated activation's degree"
                   if old_new else f"combines {show(a)} with {show(b)}", loc(fn, cn))
+    gl = [h_ for h_ in cfg.loop_heads() if h_.kind == "for"]
+    ee = [x for h_ in gl for x in early_exits(cfg, h_)]
+    check.require(bool(gl) and not ee, "W-grp", "Aggregated.grouped_terms/all-activations", "every activation of the fuzzy output is grouped" if gl and not ee else
+                  "the grouping loop is left early", loc(fn, ee[0] if ee else fn.node))
     # membership test and store use the same key
     tests = [r.term(n.ast, n) for n in cfg.stmt_nodes() if n.kind == "test"]
     keys_tested = [t[2][0] for t in tests if t[0] == "cmp" and t[1][0] in ("not in", "in")]
@@ -119,6 +123,9 @@ def defuzzifier_facts(check: Check, cname: str) -> dict:
         accs[name] = {"def": d, "term": t, "inc": inc}
     rets = [n for n in cfg.stmt_nodes() if isinstance(n.ast, ast.Return) and n.ast.value is not None]
     ret_t = r.term(rets[-1].ast.value, rets[-1]) if rets else None  # type: ignore[union-attr]
+    ee = early_exits(cfg, h)
+    check.require(not ee, "S3", f"{cname}.defuzzify/all-terms", "every grouped activation contributes (the loop is never left early)" if not ee else
+                  f"the loop over the activations is left early at line {ee[0].lineno}", loc(fn, ee[0] if ee else h))
     return {"fn": fn, "r": r, "cfg": cfg, "head": h, "iter": iter_t, "elem": elem, "accs": accs, "ret": ret_t, "retnode": rets[-1] if rets else None}
 
 
